@@ -111,8 +111,6 @@ S.spec_funcs["cleanups"] = _cleanup_count
 
 c = S.ext("signal.signal", cite="signal.signal(signum, handler)")
 c.param("signum", T.Obj).param("handler", T.Obj).event("signal", "signum", "handler").modifies()
-c = S.ext("signal.pthread_sigmask", cite="signal.pthread_sigmask(how, mask)")
-c.param("how", T.Obj).param("mask", T.Obj).event("sigmask", "how", "mask").modifies()
 c = S.ext("multiprocessing.util.log_to_stderr", cite="util.log_to_stderr(level)")
 c.param("level", T.Obj, default=NONE).modifies()
 for nm in ("sys.stdin.close", "sys.stdout.close"):
@@ -145,7 +143,7 @@ c.ensures("main/ignores-sigint-and-sigterm-before-reading",
           "log_arg('signal', 0, 1) is obj(signal.SIG_IGN) and log_arg('signal', 1, 1) is obj(signal.SIG_IGN) and "
           "log_before('signal', 'open')", prop="C12")
 c.raises("main/only-a-failing-warning-or-open-escapes", "BaseException")
-c.modifies("G.cleanup_folder", "G.cleanup_file", "G.cleanup_semlock", "G.cleanup_seq")
+c.modifies("G.cleanup_folder", "G.cleanup_file", "G.cleanup_semlock", "G.cleanup_seq", "G.fd_open")
 c.assumes("A-warn", "A-kernel")
 
 i = M.invariant("main", 1, "while True:")
@@ -228,3 +226,107 @@ c.ensures("loop/left-only-at-end-of-file", "tail(True) and has_loop()", prop=["C
 
 S.contracts[f"{RT}:main"].replay_for("loop1/iteration/step", "tracker_step", nfields=f"len({FIELDS})", cmd=CMD, rtype=RTYPE, name=NAME,
                                   pre_count=CNT0)
+
+
+# ======================================================================
+# client side: ensure_running / maybe_unlink (C12, C20, C11)
+S.ghost("sig_blocked", T.BoolS, "SIGINT/SIGTERM currently blocked in this thread by ensure_running")
+S.ghost("tracker_spawns", T.IntS, "number of tracker processes spawned")
+
+
+@_impl("mp.ResourceTracker._check_alive", cite="multiprocessing.resource_tracker.ResourceTracker._check_alive(): writes a PROBE line; False iff the write fails (tracker dead)")
+def _check_alive(eng, st, self_v, args, kwargs, node):
+    from pyvc.values import fresh_name
+    alive = z3.Bool(fresh_name("tracker_alive"))
+    st.assume(z3.Implies(st.ghost_get("tracker_stable"), alive))
+    out = []
+    for b, s in eng.branch(st, alive):
+        s.emit("probe", [self_v, VBool(b)], eng.site(node))
+        out.append(eng.val(s, VBool(b)))
+    return out
+
+
+@_impl("mp.ResourceTracker._send", cite="ResourceTracker._send(cmd, name, rtype): one os.write of '<cmd>:<name>:<rtype>\\n' (<= 512 bytes) to the tracker pipe")
+def _send(eng, st, self_v, args, kwargs, node):
+    st.emit("send", [self_v] + list(args), eng.site(node))
+    return [eng.val(st, NONE)]
+
+
+c = S.ext("multiprocessing.util._args_from_interpreter_flags", cite="util._args_from_interpreter_flags(): command-line flags reproducing the interpreter settings")
+c.returns(T.Obj).modifies()
+c = S.ext("sys.stderr.fileno", cite="sys.stderr.fileno(): descriptor of stderr; may raise when stderr is not a real file")
+c.returns(T.Int).modifies()
+c.may_raise.append(("Exception", None))
+
+
+@_impl("signal.pthread_sigmask", cite="signal.pthread_sigmask(how, mask): blocks / unblocks the signals for this thread")
+def _sigmask(eng, st, self_v, args, kwargs, node):
+    from pyvc.values import VConst
+    how = args[0]
+    if isinstance(how, VConst) and how.name == "signal.SIG_BLOCK":
+        st.ghost_set("sig_blocked", z3.BoolVal(True))
+    elif isinstance(how, VConst) and how.name == "signal.SIG_UNBLOCK":
+        st.ghost_set("sig_blocked", z3.BoolVal(False))
+    st.emit("sigmask", list(args), eng.site(node))
+    return [eng.val(st, NONE)]
+
+
+c = M.contract("spawnv_passfds")
+c.param("path", T.Obj).param("args", T.Obj).param("passfds", T.Obj)
+c.returns(T.Int)
+c.ensures("spawn/counts", "G.tracker_spawns == old(G.tracker_spawns) + 1")
+c.raises("spawn/may-fail", "BaseException", post="G.tracker_spawns == old(G.tracker_spawns)")
+c.modifies("G.tracker_spawns")
+c.trusted_summary = True
+c.note("thin wrapper over multiprocessing.util.spawnv_passfds (fork+exec with the given descriptors kept)")
+
+RTC = "ResourceTracker"
+c = M.contract(f"{RTC}.ensure_running", props=["C12", "C20"])
+c.param("self", T.Ref(RTC))
+c.rely("the-recorded-descriptor-is-open", "implies(not is_none(self._fd), G.fd_open[the(self._fd)] and not is_none(self._pid))", "A-fds")
+c.ensures("ensure/alive-tracker-is-left-alone",
+          "implies(not is_none(old(self._fd)) and log_count('probe') == 1 and log_arg('probe', 0, 1), "
+          "self._fd == old(self._fd) and self._pid == old(self._pid) and G.tracker_spawns == old(G.tracker_spawns) and G.fd_open == old(G.fd_open))", prop="C12")
+c.ensures("ensure/dead-or-missing-tracker-is-relaunched",
+          "implies(is_none(old(self._fd)) or (log_count('probe') == 1 and not log_arg('probe', 0, 1)), "
+          "G.tracker_spawns == old(G.tracker_spawns) + 1 and not is_none(self._fd) and not is_none(self._pid) and "
+          "self._fd == log_arg('pipe', 0, 1) and self._pid == log_arg('call:spawnv_passfds', 0, 0))", prop="C12")
+c.ensures("ensure/dead-tracker-descriptor-closed-and-reaped-with-a-warning",
+          "implies(not is_none(old(self._fd)) and log_count('probe') == 1 and not log_arg('probe', 0, 1), "
+          "log_count('warn') == 1 and log_arg('close', 0, 0) == old(the(self._fd)) and log_before('close', 'pipe') is not None and "
+          "log_pos('close', 0) < log_pos('warn', 0) and log_count('waitpid') + log_count('waitpid_error') == 1)", prop="C12")
+c.ensures("ensure/signals-blocked-around-the-spawn-and-unblocked-after",
+          "ite(log_count('call:spawnv_passfds') + log_count('raise:spawnv_passfds') >= 1, not G.sig_blocked, G.sig_blocked == old(G.sig_blocked)) and "
+          "implies(log_count('call:spawnv_passfds') == 1, "
+          "ordered('sigmask', lambda how, m: how is obj(signal.SIG_BLOCK), 'call:spawnv_passfds', lambda *a: True) and "
+          "exists_event('sigmask', lambda how, m: how is obj(signal.SIG_BLOCK)) and "
+          "ordered('call:spawnv_passfds', lambda *a: True, 'sigmask', lambda how, m: how is obj(signal.SIG_UNBLOCK)))", prop="C12")
+c.ensures("ensure/read-end-closed-in-the-parent-write-end-kept",
+          "implies(log_count('pipe') == 1, not G.fd_open[log_arg('pipe', 0, 0)] and G.fd_open[log_arg('pipe', 0, 1)])", prop=["C12", "C20"])
+c.ensures("ensure/under-the-tracker-lock", "log_arg('acquire', 0, 0) is self._lock and log_pos('acquire', 0) == 0 and log_tags()[-1] == 'release'", prop="C12")
+NEWFD = "forall(Int, lambda fd: implies(G.fd_open[fd] and not old(G.fd_open[fd]), not is_none(self._fd) and fd == the(self._fd)))"
+c.ensures("ensure/only-the-new-write-end-stays-open", NEWFD, prop="C20")
+c.ensures("ensure/closes-nothing-but-a-dead-trackers-descriptor",
+          "forall(Int, lambda fd: implies(old(G.fd_open[fd]) and not G.fd_open[fd], not is_none(old(self._fd)) and fd == old(the(self._fd)) and "
+          "log_count('probe') == 1 and not log_arg('probe', 0, 1)))", prop="C20")
+c.ensures("ensure/a-living-tracker-is-kept", "implies(G.tracker_stable and not is_none(old(self._fd)), self._fd == old(self._fd) and self._pid == old(self._pid) "
+          "and G.fd_open == old(G.fd_open) and G.tracker_spawns == old(G.tracker_spawns))", prop="C12")
+c.ensures("ensure/stable-tracker-means-no-descriptor-closed", "implies(G.tracker_stable, forall(Int, lambda fd: implies(old(G.fd_open[fd]), G.fd_open[fd])))", prop="C20")
+c.raises("ensure/a-failed-spawn-leaks-nothing-and-unblocks-signals", "BaseException",
+         post="ite(log_count('raise:spawnv_passfds') >= 1, not G.sig_blocked, G.sig_blocked == old(G.sig_blocked)) and "
+              "forall(Int, lambda fd: implies(G.fd_open[fd], old(G.fd_open[fd]))) and log_tags()[-1] == 'release' and "
+              "implies(G.tracker_stable, forall(Int, lambda fd: implies(old(G.fd_open[fd]), G.fd_open[fd]))) and "
+              "implies(G.tracker_stable and not is_none(old(self._fd)), self._fd == old(self._fd))", prop=["C12", "C20"])
+c.modifies("self._fd", "self._pid", "G.fd_open", "G.sig_blocked", "G.tracker_spawns", "G.pid_live", "G.joined")
+c.assumes("A-warn", "A-kernel")
+c.cover("relaunch", "not is_none(old(self._fd)) and log_count('probe') == 1 and not log_arg('probe', 0, 1)")
+c.twin("ensure/alive-tracker-is-left-alone", "G.tracker_spawns == old(G.tracker_spawns)")
+
+c = M.contract(f"{RTC}.maybe_unlink", props=["C11"])
+c.param("self", T.Ref(RTC)).param("name", T.Obj).param("rtype", T.Obj)
+c.ensures("client/ensures-the-tracker-then-sends-one-MAYBE_UNLINK",
+          "log_count('call:ResourceTracker.ensure_running') == 1 and log_count('send') == 1 and "
+          "log_before('call:ResourceTracker.ensure_running', 'send') and log_arg('send', 0, 1) == 'MAYBE_UNLINK' and "
+          "log_arg('send', 0, 2) is name and log_arg('send', 0, 3) is rtype and log_arg('send', 0, 0) is self")
+c.raises("client/tracker-start-may-fail", "BaseException")
+c.modifies("self._fd", "self._pid", "G.fd_open", "G.sig_blocked", "G.tracker_spawns", "G.pid_live", "G.joined")
